@@ -260,6 +260,168 @@ Proof.
 Qed.
 
 (* ================================================================== *)
+(* D2. the SANs list (joinNames): items may be quoted                  *)
+(* ================================================================== *)
+(* after an opening quote: up to the closing quote, a backslash taking the next octet literally *)
+Fixpoint read_quoted (acc : bytes) (l : bytes) : option (bytes * bytes) :=
+  match l with
+  | [] => None
+  | c :: r => if c =? 34 then Some (rev acc, r)
+              else if c =? 92 then match r with d :: r' => read_quoted (d :: acc) r' | [] => None end
+              else read_quoted (c :: acc) r
+  end.
+(* an unquoted item: up to the next ", " (Some rest) or the end (None) *)
+Fixpoint read_plain (cur : bytes) (l : bytes) : bytes * option bytes :=
+  match l with
+  | [] => (rev cur, None)
+  | c :: r => match r with
+              | d :: r' => if (c =? 44) && (d =? 32) then (rev cur, Some r') else read_plain (c :: cur) r
+              | [] => read_plain (c :: cur) r
+              end
+  end.
+Fixpoint parse_name_list (fuel : nat) (l : bytes) : option (list bytes) :=
+  match fuel with
+  | O => None
+  | S f =>
+      match l with
+      | [] => None
+      | c :: r =>
+          if c =? 34 then
+            match read_quoted [] r with
+            | Some (t, []) => Some [t]
+            | Some (t, x :: y :: rest) =>
+                if (x =? 44) && (y =? 32) then option_map (cons t) (parse_name_list f rest) else None
+            | _ => None
+            end
+          else
+            match read_plain [] l with
+            | (t, None) => Some [t]
+            | (t, Some rest) => option_map (cons t) (parse_name_list f rest)
+            end
+      end
+  end.
+(* an empty text stands for the empty list *)
+Definition read_name_list (v : bytes) : list bytes :=
+  match v with
+  | [] => []
+  | _ => match parse_name_list (S (length v)) v with Some l => l | None => [] end
+  end.
+
+Lemma read_quoted_esc : forall t acc rest,
+  read_quoted acc (flat_map esc1 t ++ 34 :: rest) = Some (rev acc ++ t, rest).
+Proof.
+  induction t as [|c t IH]; intros acc rest.
+  - cbn. rewrite app_nil_r. reflexivity.
+  - cbn [flat_map]. unfold esc1 at 1. destruct ((c =? 34) || (c =? 92)) eqn:E.
+    + cbn [app read_quoted N.eqb Pos.eqb]. rewrite IH. cbn [rev]. rewrite <- app_assoc. reflexivity.
+    + apply orb_false_iff in E as [E1 E2]. cbn [app read_quoted]. rewrite E1, E2.
+      rewrite IH. cbn [rev]. rewrite <- app_assoc. reflexivity.
+Qed.
+
+Lemma read_plain_cons2 : forall cur c d r,
+  read_plain cur (c :: d :: r) =
+  if (c =? 44) && (d =? 32) then (rev cur, Some r) else read_plain (c :: cur) (d :: r).
+Proof. reflexivity. Qed.
+
+Lemma read_plain_last : forall t cur, no_sep t = true -> read_plain cur t = (rev cur ++ t, None).
+Proof.
+  induction t as [|c t IH]; intros cur H.
+  - cbn. rewrite app_nil_r. reflexivity.
+  - destruct t as [|d t'].
+    + reflexivity.
+    + cbn [no_sep] in H. apply andb_true_iff in H. destruct H as [H1 H2].
+      rewrite read_plain_cons2. apply negb_true_iff in H1. rewrite H1.
+      rewrite IH by exact H2. cbn [rev]. rewrite <- app_assoc. reflexivity.
+Qed.
+
+Lemma read_plain_token : forall t cur rest, no_sep t = true ->
+  read_plain cur (t ++ 44 :: 32 :: rest) = (rev cur ++ t, Some rest).
+Proof.
+  induction t as [|c t IH]; intros cur rest H.
+  - cbn. rewrite app_nil_r. reflexivity.
+  - destruct t as [|d t'].
+    + cbn [app]. rewrite read_plain_cons2.
+      replace ((c =? 44) && (44 =? 32)) with false by (rewrite andb_false_r; reflexivity).
+      rewrite read_plain_cons2. reflexivity.
+    + cbn [no_sep] in H. apply andb_true_iff in H. destruct H as [H1 H2].
+      apply negb_true_iff in H1.
+      change ((c :: d :: t') ++ 44 :: 32 :: rest) with (c :: d :: (t' ++ 44 :: 32 :: rest)).
+      rewrite read_plain_cons2. rewrite H1.
+      change (d :: t' ++ 44 :: 32 :: rest) with ((d :: t') ++ 44 :: 32 :: rest).
+      rewrite IH by exact H2. cbn [rev]. rewrite <- app_assoc. reflexivity.
+Qed.
+
+Lemma has_sep_no_sep : forall t, has_sep t = negb (no_sep t).
+Proof.
+  induction t as [|c t IH]; [reflexivity|]. destruct t as [|d t']; [reflexivity|].
+  change (has_sep (c :: d :: t')) with (((c =? 44) && (d =? 32)) || has_sep (d :: t')).
+  change (no_sep (c :: d :: t')) with (negb ((c =? 44) && (d =? 32)) && no_sep (d :: t')).
+  rewrite IH. rewrite negb_andb, negb_involutive. reflexivity.
+Qed.
+
+(* an item is written as it is when it is not empty, does not begin with a quote and is free of ", " *)
+Definition plain (t : bytes) : bool := match t with [] => false | c :: _ => negb (c =? 34) && no_sep t end.
+Lemma name_show_plain : forall t, plain t = true -> name_show t = t.
+Proof.
+  intros [|c t] H; [discriminate|]. cbn [plain] in H. apply andb_true_iff in H as [H1 H2].
+  unfold name_show. rewrite has_sep_no_sep, H2. apply negb_true_iff in H1. rewrite H1. reflexivity.
+Qed.
+Lemma name_show_quoted : forall t, plain t = false -> name_show t = 34 :: flat_map esc1 t ++ [34].
+Proof.
+  intros [|c t] H; [reflexivity|]. cbn [plain] in H. unfold name_show. rewrite has_sep_no_sep.
+  destruct (c =? 34); [reflexivity|]. cbn [negb andb] in H. rewrite H. reflexivity.
+Qed.
+
+Lemma join2 : forall a b r, join [44; 32] (a :: b :: r) = a ++ 44 :: 32 :: join [44; 32] (b :: r).
+Proof. reflexivity. Qed.
+
+Lemma parse_name_list_join : forall ts t fuel,
+  Nat.lt (length (join [44; 32] (map name_show (t :: ts)))) fuel ->
+  parse_name_list fuel (join [44; 32] (map name_show (t :: ts))) = Some (t :: ts).
+Proof.
+  induction ts as [|t2 ts IH]; intros t fuel Hf.
+  - cbn [map join] in *. destruct fuel as [|f]; [lia|].
+    destruct (plain t) eqn:P.
+    + rewrite name_show_plain by exact P. destruct t as [|c t']; [discriminate|].
+      cbn [plain] in P. apply andb_true_iff in P as [P1 P2]. apply negb_true_iff in P1.
+      cbn [parse_name_list]. rewrite P1. rewrite read_plain_last by exact P2. reflexivity.
+    + rewrite name_show_quoted by exact P. cbn [parse_name_list N.eqb Pos.eqb].
+      rewrite read_quoted_esc. reflexivity.
+  - cbn [map] in *. rewrite join2 in *. destruct fuel as [|f]; [lia|].
+    assert (Hf2 : Nat.lt (length (join [44; 32] (name_show t2 :: map name_show ts))) f).
+    { rewrite app_length in Hf. cbn [length] in Hf. unfold Nat.lt in *. lia. }
+    destruct (plain t) eqn:P.
+    + rewrite name_show_plain by exact P. destruct t as [|c t']; [discriminate|].
+      cbn [plain] in P. apply andb_true_iff in P as [P1 P2]. apply negb_true_iff in P1.
+      cbn [app parse_name_list]. rewrite P1.
+      change (c :: t' ++ 44 :: 32 :: join [44; 32] (name_show t2 :: map name_show ts))
+        with ((c :: t') ++ 44 :: 32 :: join [44; 32] (name_show t2 :: map name_show ts)).
+      rewrite read_plain_token by exact P2. cbn [rev app].
+      rewrite IH by exact Hf2. reflexivity.
+    + rewrite name_show_quoted by exact P. cbn [app parse_name_list N.eqb Pos.eqb].
+      rewrite <- app_assoc. cbn [app]. rewrite read_quoted_esc. cbn [rev app N.eqb Pos.eqb andb].
+      rewrite IH by exact Hf2. reflexivity.
+Qed.
+
+Lemma name_show_nonempty : forall t, name_show t <> [].
+Proof.
+  intros t. destruct (plain t) eqn:P.
+  - rewrite name_show_plain by exact P. destruct t; [discriminate P|discriminate].
+  - rewrite name_show_quoted by exact P. discriminate.
+Qed.
+
+(* the SANs attribute reads back as the list of names, whatever octets the names contain *)
+Theorem read_name_list_join : forall ts, read_name_list (names_join ts) = ts.
+Proof.
+  intros [|t ts]; [reflexivity|]. unfold names_join, comma_join, read_name_list.
+  destruct (join [44; 32] (map name_show (t :: ts))) as [|x v] eqn:E.
+  - exfalso. cbn [map] in E. destruct ts as [|t2 ts].
+    + cbn [map join] in E. apply (name_show_nonempty t E).
+    + cbn [map] in E. rewrite join2 in E. apply app_eq_nil in E as [E _]. apply (name_show_nonempty t E).
+  - rewrite <- E. rewrite parse_name_list_join by lia. reflexivity.
+Qed.
+
+(* ================================================================== *)
 (* E. key usages                                                       *)
 (* ================================================================== *)
 (* generic: for ANY table whose k-th entry has the value 2^(i+k), the loop of x509KeyUsages
@@ -651,7 +813,8 @@ Lemma describe_attrs : forall v f,
     (date_string (f_not_before f)) (date_string (f_not_after f))
     (comma_join (key_usages (f_key_usage f)))
     (comma_join (x509_ekus (f_ext_key_usage f) (f_unknown_eku f)))
-    (dec_of_Z (f_max_path_len f)) (comma_join (san_strings v f)) (cert_signature_algorithm v f).
+    (dec_of_Z (f_max_path_len f)) (if v_quote v then names_join (san_strings v f) else comma_join (san_strings v f))
+    (cert_signature_algorithm v f).
 Proof.
   intros v f. unfold describe_gen, attrs_of. cbn [i_attrs].
   destruct (f_ski f); destruct (f_aki f); destruct (show_path_len v f); destruct (san_strings v f); reflexivity.
@@ -660,7 +823,8 @@ Qed.
 (* well-formedness of the encoded content, as far as the theorems need it (RFC 5280):
    version 1..3 and extensions only in version 3; key identifiers non-empty octet strings;
    pathLenConstraint >= 0; a signature algorithm known to the library is not the value 0;
-   OIDs have at least one arc; no rendered list item is empty or contains the separator ", " *)
+   OIDs have at least one arc.  (Nothing is asked of the subject alternative names: joinNames quotes
+   a name that is empty, begins with a quote or contains the separator.) *)
 Definition no_extensions (c : enc_cert) : bool :=
   negb (is_some (e_basic c)) && negb (is_some (e_key_usage c)) && negb (is_some (e_ekus c)) &&
   negb (is_some (e_sans c)) && negb (is_some (e_ski c)) && negb (is_some (e_aki c)).
@@ -674,8 +838,7 @@ Definition enc_ok (c : enc_cert) : bool :=
   key_id_ok (e_ski c) && key_id_ok (e_aki c) &&
   match e_basic c with Some (_, Some n) => (0 <=? n)%Z | _ => true end &&
   match e_sig c with SigKnown id => negb (id =? 0) | SigUnknown o => nonempty o end &&
-  forallb (fun o : oid => nonempty o) (opt_list (e_ekus c)) &&
-  forallb (fun g => token_ok (san_text g)) (filter san_reported (opt_list (e_sans c))).
+  forallb (fun o : oid => nonempty o) (opt_list (e_ekus c)).
 
 Definition ekus_grouped (l : list oid) : list oid :=
   filter eku_known l ++ filter (fun o => negb (eku_known o)) l.
@@ -705,7 +868,7 @@ Definition expected_attrs (c : enc_cert) : list (bytes * bytes) :=
     (date_string (e_not_before c)) (date_string (e_not_after c))
     (comma_join (expected_usages c)) (comma_join (expected_ekus c))
     (match expected_path_len c with Some n => dec_of_Z n | None => [] end)
-    (comma_join (expected_sans c)) (expected_sigalg c).
+    (names_join (expected_sans c)) (expected_sigalg c).
 
 Definition expected_info (c : enc_cert) : info :=
   Info (expected_desc c) (expected_attrs c) [Info (bs "Public key") (pkix_public_key_attributes (e_spki c)) []].
@@ -739,7 +902,7 @@ Proof.
     - rewrite V. cbn [N.eqb Pos.eqb]. destruct (e_basic c) as [[[|] ?]|]; reflexivity.
     - rewrite B. destruct (e_version c =? 3); reflexivity. }
   assert (Ha : i_attrs (describe_gen current (x509_spec c)) = expected_attrs c).
-  { rewrite describe_attrs. unfold expected_attrs.
+  { rewrite describe_attrs. cbn [v_quote current]. unfold expected_attrs.
     assert (Hski : f_ski (x509_spec c) = opt_bytes (e_ski c)).
     { unfold x509_spec. cbn [f_ski]. destruct Hext as [V|[V [_ [_ [_ [_ [S _]]]]]]];
         [rewrite V; reflexivity|rewrite S; destruct (e_version c =? 3); reflexivity]. }
@@ -922,6 +1085,7 @@ Record view := {
 }.
 
 Definition read_list (o : option bytes) : list bytes := match o with Some t => split_list t | None => [] end.
+Definition read_name_list_opt (o : option bytes) : list bytes := match o with Some t => read_name_list t | None => [] end.
 
 Definition read_back (i : info) : option view :=
   match i with
@@ -943,7 +1107,7 @@ Definition read_back (i : info) : option view :=
                         w_key_usages := read_list (attr (bs "Key usage") a);
                         w_ekus := read_list (attr (bs "Extended key usage") a);
                         w_path_len := pl;
-                        w_sans := read_list (attr (bs "SANs") a);
+                        w_sans := read_name_list_opt (attr (bs "SANs") a);
                         w_sigalg := sg; w_key := ka |}
             | _, _ => None
             end
@@ -990,8 +1154,7 @@ Qed.
 
 Lemma expected_tokens : forall c, enc_ok c = true ->
   forallb token_ok (expected_usages c) = true /\
-  forallb token_ok (expected_ekus c) = true /\
-  forallb token_ok (expected_sans c) = true.
+  forallb token_ok (expected_ekus c) = true.
 Proof.
   intros c Hok. enc_split Hok. repeat split.
   - unfold expected_usages. destruct (e_key_usage c); [|reflexivity].
@@ -1003,12 +1166,6 @@ Proof.
     match goal with H : forallb (fun o : oid => nonempty o) _ = true |- _ =>
       rewrite forallb_forall in H; specialize (H o Hin') end.
     destruct o; [discriminate|discriminate].
-  - unfold expected_sans. rewrite forallb_forall. intros t Ht.
-    apply in_map_iff in Ht. destruct Ht as [g [Hg Hin]]. subst t.
-    assert (Hin' : In g (filter san_reported (opt_list (e_sans c)))).
-    { eapply Permutation_in; [apply Permutation_sym; apply sans_grouped_perm|exact Hin]. }
-    match goal with H : forallb (fun g => token_ok (san_text g)) _ = true |- _ =>
-      rewrite forallb_forall in H; exact (H g Hin') end.
 Qed.
 
 Lemma read_list_join : forall ts, forallb token_ok ts = true -> read_list (Some (comma_join ts)) = ts.
@@ -1024,7 +1181,7 @@ Qed.
 Theorem read_back_expected : forall c, enc_ok c = true ->
   read_back (expected_info c) = Some (canonical_view c).
 Proof.
-  intros c Hok. destruct (expected_tokens c Hok) as [Tku [Teku Tsan]].
+  intros c Hok. destruct (expected_tokens c Hok) as [Tku Teku].
   unfold read_back, expected_info, expected_attrs.
   rewrite bytes_eqb_refl, parse_desc_expected.
   rewrite attr_serial, attr_subject, attr_issuer, attr_nb, attr_na, attr_sig, attr_pl, attr_ski, attr_aki,
@@ -1047,8 +1204,8 @@ Proof.
     apply unhex_hex_of.
     match goal with H : key_id_ok (Some k) = true |- _ => cbn in H; apply andb_true_iff in H; tauto end. }
   rewrite Hski, Haki, !read_list_join by assumption.
-  assert (Hsan : read_list (if nonempty (expected_sans c) then Some (comma_join (expected_sans c)) else None) = expected_sans c).
-  { destruct (expected_sans c) eqn:E; [reflexivity|]. cbn [nonempty]. rewrite <- E in *. apply read_list_join. exact Tsan. }
+  assert (Hsan : read_name_list_opt (if nonempty (expected_sans c) then Some (names_join (expected_sans c)) else None) = expected_sans c).
+  { destruct (expected_sans c) eqn:E; [reflexivity|]. cbn [nonempty read_name_list_opt]. apply read_name_list_join. }
   rewrite Hsan.
   unfold canonical_view.
   destruct (expected_path_len c) as [n|]; cbn [option_map]; [rewrite parse_dec_of_N|]; reflexivity.
@@ -1126,12 +1283,12 @@ Proof.
 Qed.
 
 Theorem sans_shown : forall c, enc_ok c = true ->
-  attr (bs "SANs") (shown c) = (if nonempty (expected_sans c) then Some (comma_join (expected_sans c)) else None) /\
-  split_list (comma_join (expected_sans c)) = expected_sans c /\
+  attr (bs "SANs") (shown c) = (if nonempty (expected_sans c) then Some (names_join (expected_sans c)) else None) /\
+  read_name_list (names_join (expected_sans c)) = expected_sans c /\
   Permutation (map san_text (filter san_reported (opt_list (e_sans c)))) (expected_sans c).
 Proof.
   intros c H. rewrite shown_expected by exact H. unfold expected_attrs. split; [apply attr_san|]. split.
-  - apply split_list_join. apply (expected_tokens c H).
+  - apply read_name_list_join.
   - unfold expected_sans. apply Permutation_map. apply sans_grouped_perm.
 Qed.
 
@@ -1188,7 +1345,7 @@ Definition attr_source (c : enc_cert) (n v : bytes) : Prop :=
   (n = bs "Key usage" /\ v = comma_join (expected_usages c)) \/
   (n = bs "Extended key usage" /\ v = comma_join (expected_ekus c)) \/
   (n = bs "Max path length" /\ exists k, e_basic c = Some (true, Some k) /\ v = dec_of_Z k) \/
-  (n = bs "SANs" /\ expected_sans c <> [] /\ v = comma_join (expected_sans c)) \/
+  (n = bs "SANs" /\ expected_sans c <> [] /\ v = names_join (expected_sans c)) \/
   (n = bs "Signature algorithm" /\ v = expected_sigalg c).
 
 Theorem nothing_invented : forall c n v, enc_ok c = true -> In (n, v) (shown c) -> attr_source c n v.
@@ -1282,19 +1439,43 @@ Example ip16_repaired :
   attr (bs "SANs") (shown (witness_ip [192; 0; 2; 1])) = Some (bs "192.0.2.1").
 Proof. split; vm_compute; reflexivity. Qed.
 
-(* the list separator is not escaped: a single name containing ", " reads like two names.
-   (Excluded from the theorems by enc_ok; not repaired: see the report.) *)
-Theorem san_separator_ambiguity : exists c1 c2, e_sans c1 <> e_sans c2 /\
-  describe (x509_spec c1) = describe (x509_spec c2) /\ enc_ok c1 = false /\ enc_ok c2 = true.
+(* the list separator was not escaped: a single name containing ", " read like two names, and a
+   certificate inside RFC 5280's profile (an rfc822Name is a Mailbox, RFC 2821 4.1.2, whose local part may
+   be a quoted string containing ", ") was reported with a name that is not encoded *)
+Definition witness_dns (l : list general_name) : enc_cert :=
+  {| e_version := 3; e_serial := 77; e_subject := bs "CN=leaf.example"; e_issuer := bs "CN=Example CA";
+     e_not_before := 1704067200; e_not_after := 1735689600; e_spki := SBare [1; 3; 101; 112];
+     e_basic := None; e_key_usage := None; e_ekus := None; e_sans := Some l; e_ski := None; e_aki := None;
+     e_sig := SigKnown 16 |}.
+
+Theorem pre_quote_refuted : exists c1 c2, enc_ok c1 = true /\ enc_ok c2 = true /\ e_sans c1 <> e_sans c2 /\
+  describe_gen pre_quote (x509_spec c1) = describe_gen pre_quote (x509_spec c2).
 Proof.
-  exists {| e_version := 3; e_serial := 77; e_subject := []; e_issuer := []; e_not_before := 0; e_not_after := 0;
-            e_spki := SBare [1; 3; 101; 112]; e_basic := None; e_key_usage := None; e_ekus := None;
-            e_sans := Some [GN 2 (bs "a.example, b.example")]; e_ski := None; e_aki := None; e_sig := SigKnown 16 |},
-         {| e_version := 3; e_serial := 77; e_subject := []; e_issuer := []; e_not_before := 0; e_not_after := 0;
-            e_spki := SBare [1; 3; 101; 112]; e_basic := None; e_key_usage := None; e_ekus := None;
-            e_sans := Some [GN 2 (bs "a.example"); GN 2 (bs "b.example")]; e_ski := None; e_aki := None; e_sig := SigKnown 16 |}.
+  exists (witness_dns [GN 2 (bs "a.example, b.example")]), (witness_dns [GN 2 (bs "a.example"); GN 2 (bs "b.example")]).
   repeat split; try (vm_compute; reflexivity). intro H; discriminate.
 Qed.
+
+Definition witness_separator : enc_cert :=
+  witness_dns [GN 1 ([34] ++ bs "a, evil.example, b" ++ [34] ++ bs "@x.example")].
+
+Theorem pre_quote_invents_name : exists c v, enc_ok c = true /\
+  attr (bs "SANs") (i_attrs (describe_gen pre_quote (x509_spec c))) = Some v /\
+  In (bs "evil.example") (split_list v) /\
+  ~ In (bs "evil.example") (map san_text (opt_list (e_sans c))).
+Proof.
+  exists witness_separator. eexists. split; [vm_compute; reflexivity|]. split; [vm_compute; reflexivity|].
+  split.
+  - right. left. reflexivity.
+  - cbn. intros [H|[]]. discriminate H.
+Qed.
+
+(* under the repaired code the two lists are told apart and the odd name reads back as itself *)
+Example quote_repaired :
+  attr (bs "SANs") (shown (witness_dns [GN 2 (bs "a.example, b.example")])) = Some ([34] ++ bs "a.example, b.example" ++ [34]) /\
+  attr (bs "SANs") (shown (witness_dns [GN 2 (bs "a.example"); GN 2 (bs "b.example")])) = Some (bs "a.example, b.example") /\
+  option_map read_name_list (attr (bs "SANs") (shown witness_separator)) =
+  Some [[34] ++ bs "a, evil.example, b" ++ [34] ++ bs "@x.example"].
+Proof. repeat split; vm_compute; reflexivity. Qed.
 
 (* ================================================================== *)
 (* M. the hypotheses are met by non-trivial contents                   *)
